@@ -261,6 +261,11 @@ def layer_structure(thorough):
                     tp = ("P", "p", 0.0, 3.0, pt)
                     yield ("C", (), (glo, ghi, (ti, tp)), 1e-8)
                     yield ("C", (), (glo, ghi, (tp, ti)), 1e-8)
+                    if len(iv) <= 1 and len(pt) <= 1:
+                        # the same with the threshold switched off (minimumIntervalLength=None): what blank filling does to an EMPTY tier (one blank
+                        # interval over the whole span) must not hang on the sliver pass
+                        yield ("C", (), (glo, ghi, (ti, tp)), None)
+                        yield ("C", (), (glo, ghi, (tp, ti)), None)
                     if thorough:
                         yield ("C", (), (glo, ghi, (ti, tp, ("I", "j", 0.0, 3.0, ((0.5, 2.5, "q"),)))), 1e-8)
                         yield ("C", (), (glo, ghi, (ti,)), 1e-8)
